@@ -22,6 +22,7 @@ import (
 
 	"github.com/go-text/typesetting/font"
 	ot "github.com/go-text/typesetting/font/opentype"
+	"github.com/go-text/typesetting/font/opentype/tables"
 	"github.com/go-text/typesetting/harfbuzz"
 	"github.com/go-text/typesetting/language"
 	ucd "github.com/go-text/typesetting/unicodedata"
@@ -54,6 +55,7 @@ const (
 	fVOriginFloor     = "C05-vorigin-half-diff-truncation"
 	fVorgVar          = "C05-vorg-variation-delta-missing"
 	fPanicReverseIdx  = "C05-panic-cursor-after-reverse-lookup"
+	fGenCatRanges     = "C05-general-category-first-last-ranges"
 )
 
 // unconditional (skew / loader / unspecified) classes
@@ -63,6 +65,7 @@ const (
 	sOpBudget       = "unspecified:operation-budget-exhausted"
 	sAATRanges      = "skew:aat-feature-ranges"
 	sPairClass0     = "skew:pairpos2-second-class-zero"
+	sMarkBaseMulti  = "skew:markbase-after-multiple-subst"
 	lBitmapOnly     = "loader:bitmap-only-extents"
 )
 
@@ -78,6 +81,7 @@ type fontFacts struct {
 	monoBitmaps     bool // EBLC/EBDT or bloc/bdat strikes (not read by the reference's font functions)
 	hasVORG         bool
 	featureVarTable bool
+	multiAndMark    bool // GSUB has a MultipleSubst lookup and GPOS a MarkBasePos lookup
 }
 
 var factsCache = map[*fontEntry]*fontFacts{}
@@ -117,6 +121,22 @@ func facts(fe *fontEntry) *fontFacts {
 		f.monoBitmaps = lds[fe.index].HasTable(ot.MustNewTag("EBLC")) || lds[fe.index].HasTable(ot.MustNewTag("bloc"))
 	}
 	f.featureVarTable = len(fe.face.GSUB.FeatureVariations) > 0 || len(fe.face.GPOS.FeatureVariations) > 0
+	multi, markBase := false, false
+	for _, l := range fe.face.GSUB.Lookups {
+		for _, st := range l.Subtables {
+			if _, ok := st.(tables.MultipleSubs); ok {
+				multi = true
+			}
+		}
+	}
+	for _, l := range fe.face.GPOS.Lookups {
+		for _, st := range l.Subtables {
+			if _, ok := st.(tables.MarkBasePos); ok {
+				markBase = true
+			}
+		}
+	}
+	f.multiAndMark = multi && markBase
 	return f
 }
 
@@ -220,6 +240,17 @@ var useScripts = map[language.Script]bool{
 	language.Makasar: true, language.Medefaidrin: true, language.Old_Sogdian: true, language.Sogdian: true, language.Elymaic: true,
 	language.Nandinagari: true, language.Nyiakeng_Puachue_Hmong: true, language.Wancho: true, language.Chorasmian: true, language.Dives_Akuru: true,
 	language.Khitan_Small_Script: true, language.Yezidi: true,
+}
+
+// firstLastRange: letters whose general category UnicodeData.txt gives by a <First>/<Last> pair.
+func firstLastRange(r rune) bool {
+	for _, p := range [][2]rune{{0x3400, 0x4DBF}, {0x4E00, 0x9FFF}, {0xAC00, 0xD7A3}, {0x17000, 0x187F7}, {0x18D00, 0x18D08}, {0x20000, 0x2A6DF},
+		{0x2A700, 0x2B739}, {0x2B740, 0x2B81D}, {0x2B820, 0x2CEA1}, {0x2CEB0, 0x2EBE0}, {0x30000, 0x3134A}, {0x31350, 0x323AF}} {
+		if r >= p[0] && r <= p[1] {
+			return true
+		}
+	}
+	return false
 }
 
 // defaultIgnorable: Default_Ignorable_Code_Point as the shapers use it.
@@ -386,6 +417,36 @@ func triage(fe *fontEntry, c *Case, got portResult, want refResult) class {
 	if c.Cluster == 1 && graphemesReversed(got.Script, got.Dir) && ranged && ev.Known(fReverseGraphemes) {
 		return class{fReverseGraphemes, true}
 	}
+	// finding: Arabic "modifier combining marks" of class 220 are renumbered to the class of
+	// the 230 ones (typo mcc26 for mcc22): fallback positioning puts them above, and since the
+	// normaliser recomposes on the renumbered classes the glyphs themselves can differ
+	// (NotoSansArabic: U+0626 U+0655 stays decomposed).
+	for _, r := range c.item() {
+		if mcmBelow[r] && ev.Known(fArabicMCM) {
+			return class{fArabicMCM, true}
+		}
+	}
+	// finding: the general-category tables of package unicodedata lack every range that
+	// UnicodeData.txt gives as a <First>/<Last> pair (CJK ideographs, Hangul syllables, Tangut,
+	// private use, surrogates): the shaper sees them as unassigned. Visible in
+	// ensureNativeDirection: "left-to-right run of a right-to-left script with digits or regional
+	// indicators and no letter keeps its direction" does not see those letters.
+	if c.Dir == 4 && rtlScripts[got.Script] && ev.Known(fGenCatRanges) {
+		trigger, rangeLetter, otherLetter := false, false, false
+		for _, r := range c.item() {
+			switch {
+			case unicode.IsDigit(r) || r >= 0x1F1E6 && r <= 0x1F1FF:
+				trigger = true
+			case firstLastRange(r):
+				rangeLetter = true
+			case unicode.IsLetter(r):
+				otherLetter = true
+			}
+		}
+		if trigger && rangeLetter && !otherLetter {
+			return class{fGenCatRanges, true}
+		}
+	}
 	if useScripts[got.Script] {
 		hasCn := false
 		for _, r := range c.item() {
@@ -436,14 +497,6 @@ func triage(fe *fontEntry, c *Case, got portResult, want refResult) class {
 	if c.Cluster == 1 && graphemesReversed(got.Script, got.Dir) && !sameOn(port, ref, fCluster) && ev.Known(fReverseGraphemes) {
 		add(fReverseGraphemes, fCluster)
 	}
-	// finding: Arabic "modifier combining marks" of class 220 are renumbered to the class of
-	// the 230 ones (typo mcc26 for mcc22): fallback positioning puts them above.
-	for _, r := range c.item() {
-		if mcmBelow[r] && ev.Known(fArabicMCM) {
-			add(fArabicMCM, fOffset)
-			break
-		}
-	}
 	// finding: vertical origin of a variable glyf font without vmtx/VORG: upstream derives the top
 	// side bearing from the phantom points as soon as coordinates are set; the port only when vmtx
 	// exists (y origin differs by hundreds of units).
@@ -462,6 +515,26 @@ func triage(fe *fontEntry, c *Case, got portResult, want refResult) class {
 				add(sPairClass0, fAdvance|fOffset)
 				break
 			}
+		}
+	}
+	// skew: MarkBasePos when the glyph before the mark is a later component of a MultipleSubst
+	// sequence: the port implements upstream's fix for harfbuzz issue 4124 (2023: such a glyph is
+	// skipped only when the base coverage does not contain it), libharfbuzz 6.0.0 (2022) always
+	// skips it and attaches to the first glyph of the sequence. Estedad-VF.ttf, direction LTR,
+	// U+0639 U+0628 U+0651: the shadda is attached (407,-500) by the reference only.
+	// Precondition: GSUB MultipleSubst and GPOS MarkBasePos present; only the offsets of GDEF
+	// mark glyphs differ.
+	if f.multiAndMark && fe.face.GDEF.GlyphClassDef != nil && sameOn(port, ref, fID|fCluster|fAdvance) {
+		onlyMarks := true
+		for i := range port {
+			if port[i].XOff != ref[i].XOff || port[i].YOff != ref[i].YOff {
+				if cl, _ := fe.face.GDEF.GlyphClassDef.Class(tables.GlyphID(port[i].ID)); cl != 3 {
+					onlyMarks = false
+				}
+			}
+		}
+		if onlyMarks {
+			add(sMarkBaseMulti, fOffset)
 		}
 	}
 	// finding: VORG vertical origins of a variable font are not varied (VVAR vertical-origin
